@@ -246,4 +246,4 @@ def run(ctx):
                 rule='per (problem, gridding mode, execution mode): real jvec '
                      'on every model basis vector, real jtvec on every data '
                      'basis vector e_k and i e_k; matrix identities',
-                time_cap=ctx.budget or (200 if q else 2400), chunksize=1)
+                time_cap=ctx.budget or (800 if q else 4800), chunksize=1)
